@@ -202,6 +202,14 @@ Flags(i) ==
   LET nd == Nd(i) s == Pre(i) s2 == Post(i) step == nd.parent > 0 IN
   [ step |-> step, ok |-> step /\ nd.res.ok,
     placed |-> step /\ nd.a \in {"LimitOrder", "MarketOrder", "MMOrder"} /\ nd.res.ok,
+    marketPlaced |-> step /\ nd.a = "MarketOrder" /\ nd.res.ok,
+    marketBoundary |-> step /\ nd.a = "MarketOrder" /\ nd.res.ok /\ \E o \in s2.orders \ s.orders :
+                          o.typ = "M" /\ o.dir = "B" /\ (o.price * o.amt) % PS # 0 /\ Fee(s2.par[o.app], o.offer) > Fee(s2.par[o.app], o.offer - 1),
+    feeStepPlaced |-> step /\ nd.a \in {"LimitOrder", "MarketOrder"} /\ nd.res.ok /\ \E o \in s2.orders \ s.orders :
+                          Fee(s2.par[o.app], o.offer) > Fee(s2.par[o.app], o.offer - 1),
+    roundedUpPlaced |-> step /\ nd.a \in {"LimitOrder", "MarketOrder", "MMOrder"} /\ nd.res.ok /\ \E o \in s2.orders \ s.orders :
+                          o.dir = "B" /\ (o.price * o.amt) % PS # 0,
+    marketPartialEnd |-> step /\ \E o \in s2.orders : o.typ = "M" /\ ~Live(o) /\ o.rem > 0 /\ o.rem < o.offer /\ Was(s, o),
     cancel |-> step /\ CancelAnte(nd, s),
     cancelAll |-> step /\ nd.a = "CancelAll" /\ nd.res.ok /\ CancelAllTargets(s, nd.args) # {},
     cancelAllMixed |-> step /\ nd.a = "CancelAll" /\ nd.res.ok /\ \E o \in CancelAllTargets(s, nd.args) :
@@ -229,7 +237,7 @@ Flags(i) ==
     residue |-> nd.st.tainted ]
 FL == [i \in 1..NLog |-> Flags(i)]
 Cnt(f) == Cardinality({i \in 1..NLog : FL[i][f]})
-Stats == PrintT(<<"STATS", [k \in {"step", "ok", "placed", "cancel", "cancelAll", "cancelAllMixed", "mmImproved", "mm", "mmDiff", "mmPartial", "completed", "expired", "canceled", "partialEnd", "filled",
+Stats == PrintT(<<"STATS", [k \in {"step", "ok", "placed", "marketPlaced", "marketBoundary", "feeStepPlaced", "roundedUpPlaced", "marketPartialEnd", "cancel", "cancelAll", "cancelAllMixed", "mmImproved", "mm", "mmDiff", "mmPartial", "completed", "expired", "canceled", "partialEnd", "filled",
                                    "emptied", "farmed", "activeFarm", "supply", "pending", "disabled", "zeroSupply", "activeUnfarm", "ledger", "residue"} |-> Cnt(k)]
                             @@ [nodes |-> NLog]>>)
 AllSeen == Stats /\ TLCGet("stats").distinct = NLog + NB + 1
